@@ -158,6 +158,139 @@ theorem createProvider_failed_is_identity (s : State) (ns : Name) (cc : ClassRec
     · intro _; exact createSingle_failed_is_identity s ns cc i
   · intro _; exact createSingle_failed_is_identity s ns cc i
 
+/-! ### the CIM_Namespace provider -/
+
+/-- CreateInstance of CIM_Namespace through the provider: the namespace is added BEFORE the instance is validated
+    and stored; atomic because whatever makes the instance creation fail, the namespace just added is removed again
+    (and removing it gives back exactly the old namespace list) -/
+theorem nsProvCreate_failed_is_identity (s : State) (ns : Name) (cc : ClassRec) (i : Inst) :
+    AtomicAt (nsProvCreate ns cc i) s := by
+  unfold nsProvCreate
+  apply atomicAt_ite; · intro _; exact atomicAt_raise _ _
+  intro _
+  cases findPropV i.props pnName with
+  | none => exact atomicAt_raise _ _
+  | some pn =>
+    cases findPropV i.props pnCreationClassName with
+    | none => exact atomicAt_raise _ _
+    | some pc =>
+      simp only
+      cases pn.val with
+      | null => exact atomicAt_raise _ _
+      | ref _ => exact atomicAt_raise _ _
+      | sc sv =>
+        cases sv with
+        | int _ => exact atomicAt_raise _ _
+        | str raw =>
+          simp only
+          cases pc.val with
+          | null => exact atomicAt_raise _ _
+          | ref _ => exact atomicAt_raise _ _
+          | sc cv =>
+            cases cv with
+            | int _ => exact atomicAt_raise _ _
+            | str ccn =>
+              simp only
+              apply atomicAt_ite; · intro _; exact atomicAt_raise _ _
+              intro _
+              apply atomicAt_getS_then
+              unfold nsProvPrepare nsProvFinish
+              by_cases hadd : (findNs s (stripSlashes raw)).isNone = true
+              · -- the namespace is added first
+                simp only [hadd, if_true]
+                apply atomicAt_bind_write (addNamespace_failed_is_identity s _)
+                intro s1 a hs1 e he
+                have hnone : s.nss.find? (fun r => nameEq r.name (stripSlashes raw)) = none := by
+                  have := hadd; unfold findNs at this; simpa using this
+                rcases addNamespace_cases (stripSlashes raw) s (stripSlashes_idem raw) with ⟨e', he'⟩ | hok
+                · rw [he'] at hs1; cases hs1
+                · rw [hok] at hs1
+                  cases hs1
+                  -- the instance creation is atomic from the state with the namespace; the handler removes it
+                  have hcp := createProvider_failed_is_identity
+                    ({ s with nss := s.nss ++ [{ name := stripSlashes raw }] } : State) ns cc
+                    { i with props := i.props.map (fun p =>
+                        if nameEq p.name pnName then
+                          ({ name := pnName, ty := tyString, isArr := false, val := .sc (.str (stripSlashes raw)) } : PropV)
+                        else p) }
+                  unfold AtomicAt at hcp
+                  unfold Pywbem.Model.Atomic.tryCatch at he ⊢
+                  revert he hcp
+                  generalize createProvider ns cc _ _ = res
+                  obtain ⟨s2, r2⟩ := res
+                  intro he hcp
+                  cases r2 with
+                  | ok _ => cases he
+                  | error e2 =>
+                    have hs2 := hcp e2 rfl
+                    simp only at hs2
+                    subst hs2
+                    simp only [bind_apply, dropNamespace, raise]
+                    rw [filter_append_new _ _ hnone]
+              · -- the namespace exists: read-only check, then the (atomic) default creation
+                simp only [hadd]
+                refine atomicAt_bind ?_ ?_
+                · apply readOnly_bind (readOnly_getNs ns)
+                  intro r
+                  exact readOnly_ite _ (readOnly_raise _) (readOnly_pure _)
+                intro _ _
+                apply atomicAt_tryCatch (createProvider_failed_is_identity s ns cc _)
+                intro e _
+                apply atomicAt_bind (readOnly_pure _); intro _ _
+                exact atomicAt_raise _ _
+
+/-- DeleteInstance of CIM_Namespace through the provider: the namespace is removed first, then the instance;
+    once the namespace removal succeeded the deletion of the instance (found by the dispatcher) cannot fail -/
+theorem nsProvDelete_failed_is_identity (s : State) (ns : Name) (p : Path) (k : PKey) (r : NsRec) (stored : InstRec)
+    (hr : findNs s ns = some r) (hk : findInst r k = some stored) : AtomicAt (nsProvDelete ns p k) s := by
+  unfold nsProvDelete
+  cases p.keys.find? (fun e => nameEq e.1 pnName) with
+  | none => exact atomicAt_raise _ _
+  | some e =>
+    obtain ⟨kn, kv⟩ := e
+    cases kv with
+    | null => exact atomicAt_raise _ _
+    | ref _ => exact atomicAt_raise _ _
+    | sc sv =>
+      cases sv with
+      | int _ => exact atomicAt_raise _ _
+      | str target =>
+        simp only
+        apply atomicAt_ite; · intro _; exact atomicAt_raise _ _
+        intro _
+        apply atomicAt_bind_write (removeNamespace_failed_is_identity s target)
+        intro s1 a hs1 e he
+        rcases removeNamespace_cases target s with ⟨e', he'⟩ | ⟨rt, hrt, hempty, hok⟩
+        · rw [he'] at hs1; cases hs1
+        · rw [hok] at hs1
+          cases hs1
+          -- the removed namespace is empty, the namespace of the instance is not: they differ
+          have hne : lower ns ≠ lower (stripSlashes target) := by
+            intro heq
+            have : findNs s (stripSlashes target) = findNs s ns := by unfold findNs nameEq; rw [heq]
+            rw [this, hr] at hrt
+            cases hrt
+            unfold findInst at hk
+            cases hl : r.insts with
+            | nil => rw [hl] at hk; simp at hk
+            | cons _ _ => rw [hl] at hempty; simp at hempty
+          have hfind := findNs_filter_other s ns (stripSlashes target) r hr hne
+          have hhas : hasInst r k = true := by unfold hasInst; rw [hk]; rfl
+          obtain ⟨r', hr'⟩ := instDeleteR_ok k r hhas
+          exfalso
+          unfold inNs at he
+          rw [hfind] at he
+          simp only [hr'] at he
+          cases he
+
+/-- a user-defined provider that rejects before delegating keeps CreateInstance atomic -/
+theorem userProvCreate_failed_is_identity (s : State) (u : UserProv) (ns : Name) (cc : ClassRec) (i : Inst) :
+    AtomicAt (userProvCreate u ns cc i) s := by
+  unfold userProvCreate
+  apply atomicAt_ite
+  · intro _; exact atomicAt_raise _ _
+  · intro _; exact createProvider_failed_is_identity s ns cc i
+
 theorem createInstance_failed_is_identity (s : State) (ns : Name) (i0 : Inst) :
     AtomicAt (createInstance ns i0) s := by
   unfold createInstance
@@ -169,7 +302,13 @@ theorem createInstance_failed_is_identity (s : State) (ns : Name) (i0 : Inst) :
     simp only
     apply atomicAt_ite; · intro _; exact atomicAt_raise _ _
     intro _
-    exact createProvider_failed_is_identity s ns cc _
+    apply atomicAt_getS_then
+    apply atomicAt_ite
+    · intro _; exact nsProvCreate_failed_is_identity s ns cc _
+    · intro _
+      cases findUserProv s ns i0.cls with
+      | none => exact createProvider_failed_is_identity s ns cc _
+      | some u => exact userProvCreate_failed_is_identity s u ns cc _
 
 theorem modifyMulti_failed_is_identity (s : State) (nss : List Name) (rec : InstRec) :
     AtomicAt (modifyMulti nss rec) s := by
@@ -217,8 +356,8 @@ theorem modifyProvider_failed_is_identity (s : State) (ns : Name) (cc : ClassRec
     · intro _; exact atomicAt_inNs _ _ _
   · intro _; exact atomicAt_inNs _ _ _
 
-theorem modifyInstance_failed_is_identity (s : State) (ns : Name) (p : Path) (i0 : Inst) :
-    AtomicAt (modifyInstance ns p i0) s := by
+theorem modifyInstance_failed_is_identity (s : State) (ns : Name) (p : Path) (i0 : Inst)
+    (pl : Option (List Name)) : AtomicAt (modifyInstance ns p i0 pl) s := by
   unfold modifyInstance
   apply atomicAt_ite; · intro _; exact atomicAt_raise _ _
   intro _
@@ -234,7 +373,20 @@ theorem modifyInstance_failed_is_identity (s : State) (ns : Name) (p : Path) (i0
       simp only
       apply atomicAt_ite; · intro _; exact atomicAt_raise _ _
       intro _
-      exact modifyProvider_failed_is_identity s ns cc stored _
+      apply atomicAt_ite; · intro _; exact atomicAt_raise _ _
+      intro _
+      apply atomicAt_liftE_then; intro props _
+      apply atomicAt_getS_then
+      apply atomicAt_ite
+      · intro _; exact atomicAt_raise _ _
+      · intro _
+        cases findUserProv s ns i0.cls with
+        | none => exact modifyProvider_failed_is_identity s ns cc stored _
+        | some u =>
+          simp only
+          apply atomicAt_ite
+          · intro _; exact atomicAt_raise _ _
+          · intro _; exact modifyProvider_failed_is_identity s ns cc stored _
 
 theorem deleteMulti_failed_is_identity (s : State) (nss : List Name) (k : PKey) (hd : DistinctLower nss) :
     AtomicAt (deleteMulti nss k) s := by
@@ -279,14 +431,26 @@ theorem deleteInstance_failed_is_identity (s : State) (ns : Name) (p : Path) :
     AtomicAt (deleteInstance ns p) s := by
   unfold deleteInstance
   apply atomicAt_bind (readOnly_validateNs ns); intro _ _
-  apply atomicAt_getNs_then; intro r _
+  apply atomicAt_getNs_then; intro r hr
   cases findClass r p.cls with
   | none => exact atomicAt_raise _ _
   | some cc =>
     simp only
-    cases findInst r (mkKey ns p.cls p.keys) with
+    cases hk : findInst r (mkKey ns p.cls p.keys) with
     | none => exact atomicAt_raise _ _
-    | some stored => exact deleteProvider_failed_is_identity s ns cc stored _
+    | some stored =>
+      simp only
+      apply atomicAt_getS_then
+      apply atomicAt_ite
+      · intro _; exact nsProvDelete_failed_is_identity s ns p _ r stored hr hk
+      · intro _
+        cases findUserProv s ns p.cls with
+        | none => exact deleteProvider_failed_is_identity s ns cc stored _
+        | some u =>
+          simp only
+          apply atomicAt_ite
+          · intro _; exact atomicAt_raise _ _
+          · intro _; exact deleteProvider_failed_is_identity s ns cc stored _
 
 /-- DeleteClass: rejected before the deletion loop, or the loop is undone by the snapshot/restore block -/
 theorem deleteClass_failed_is_identity (s : State) (ns : Name) (n : Name) : AtomicAt (deleteClass ns n) s := by
@@ -368,7 +532,7 @@ theorem mofProd_failed_is_identity (s : State) (ns : Name) (p : Prod) : AtomicAt
           | error _ => exact atomicAt_raise _ _
           | ok keys =>
             simp only
-            apply atomicAt_tryCatch (modifyInstance_failed_is_identity s ns _ i)
+            apply atomicAt_tryCatch (modifyInstance_failed_is_identity s ns _ i none)
             intro e2 _
             cases e2 <;> exact atomicAt_raise _ _
         · intro _; exact atomicAt_raise _ _
@@ -377,12 +541,48 @@ theorem mofProd_failed_is_identity (s : State) (ns : Name) (p : Prod) : AtomicAt
   | syntaxError => unfold mofProd; exact atomicAt_raise _ _
   | missingInclude => unfold mofProd; exact atomicAt_raise _ _
 
+/-! ### MOF with compiler directives (`#pragma namespace`, `#pragma include`) -/
+
+/-- a production in the current target namespace (existing or not) is atomic by itself -/
+theorem mofProdIn_failed_is_identity (s : State) (ns : Name) (p : Prod) : AtomicAt (mofProdIn ns p) s := by
+  intro e he
+  unfold mofProdIn at he ⊢
+  cases hf : findNs s ns with
+  | some r => rw [hf] at he; exact mofProd_failed_is_identity s ns p e he
+  | none => cases p <;> rfl
+
+/-- compile_mof_string / compile_mof_file with compiler directives: atomic for a failure at ANY item, at any include
+    depth, whatever namespaces the batch has written to (snapshot/restore covers the whole repository) -/
+theorem compileMofItems_failed_is_identity (s : State) (ns : Name) (items : List MofItem) :
+    AtomicAt (compileMofItems ns items) s := by
+  unfold compileMofItems
+  apply atomicAt_bind (readOnly_validateNs ns); intro _ _
+  exact atomicAt_withRollback _ _
+
 /-- compile_mof_string / compile_mof_file: atomic for a failure at ANY production -/
 theorem compileMof_failed_is_identity (s : State) (ns : Name) (ps : List Prod) :
     AtomicAt (compileMof ns ps) s := by
   unfold compileMof
-  apply atomicAt_bind (readOnly_validateNs ns); intro _ _
-  exact atomicAt_withRollback _ _
+  exact compileMofItems_failed_is_identity s ns _
+
+/-- the item fold distributes over concatenation, threading the target namespace -/
+theorem mofItems_append (b : List MofItem) : ∀ (a : List MofItem) (ns : Name),
+    mofItems ns (a ++ b) = mofItems ns a >>= fun ns' => mofItems ns' b
+  | [], ns => by simp only [List.nil_append, mofItems]; rfl
+  | x :: xs, ns => by
+    simp only [List.cons_append, mofItems]
+    rw [bind_assoc']
+    congr 1
+    funext n'
+    exact mofItems_append b xs n'
+
+/-- `#pragma include` is textual inclusion: compiling an include directive followed by `rest` is compiling the
+    productions of the file followed by `rest` - same writes, same failure, and a `#pragma namespace` inside the
+    file stays in effect for `rest` -/
+theorem include_is_textual_inclusion (ns : Name) (ps rest : List MofItem) :
+    mofItems ns (.include ps :: rest) = mofItems ns (ps ++ rest) := by
+  rw [mofItems_append]
+  simp only [mofItems, mofItem]
 
 /-! ### the property -/
 
@@ -397,7 +597,7 @@ theorem failed_step_is_identity (s : State) (op : Op) : (step s op).2.isSome →
     | setQualifier ns q => exact setQualifier_failed_is_identity s ns q
     | deleteQualifier ns n => exact deleteQualifier_failed_is_identity s ns n
     | createInstance ns i => exact createInstance_failed_is_identity s ns i
-    | modifyInstance ns p i => exact modifyInstance_failed_is_identity s ns p i
+    | modifyInstance ns p i pl => exact modifyInstance_failed_is_identity s ns p i pl
     | deleteInstance ns p => exact deleteInstance_failed_is_identity s ns p
     | addNamespace ns => exact addNamespace_failed_is_identity s ns
     | removeNamespace ns => exact removeNamespace_failed_is_identity s ns
@@ -407,6 +607,7 @@ theorem failed_step_is_identity (s : State) (op : Op) : (step s op).2.isSome →
       apply atomicAt_bind (readOnly_validateNs ns); intro _ _
       exact addObject_failed_is_identity s ns o
     | compileMof ns ps => exact compileMof_failed_is_identity s ns ps
+    | compileMofItems ns items => exact compileMofItems_failed_is_identity s ns items
   intro hs
   unfold step at hs ⊢
   unfold AtomicAt at h
@@ -429,6 +630,28 @@ theorem failed_steps_of_history_are_identity : ∀ (ops : List Op) (s : State),
   | op :: ops, s => by
     unfold runOps FailedStepsAreIdentity
     exact ⟨failed_step_is_identity s op, failed_steps_of_history_are_identity ops (step s op).1⟩
+
+/-- in a history that also contains set-up commands (registration of the CIM_Namespace provider, which is not an
+    entry point of the property), the state after a failed OPERATION equals the state before it -/
+def FailedOpsAreIdentity (s : State) : List Cmd → List (State × Option PyExc) → Prop
+  | Cmd.op _ :: cs, (s', out) :: rest => (out.isSome → s' = s) ∧ FailedOpsAreIdentity s' cs rest
+  | _ :: cs, (s', _) :: rest => FailedOpsAreIdentity s' cs rest
+  | _, _ => True
+
+/-- THE PROPERTY over histories with provider registration: whatever was registered when, every failing
+    operation (including CreateInstance/DeleteInstance of namespaces through the provider) is a no-op -/
+theorem failed_ops_of_history_with_setup_are_identity : ∀ (cs : List Cmd) (s : State),
+    FailedOpsAreIdentity s cs (runCmds s cs)
+  | [], _ => by unfold runCmds FailedOpsAreIdentity; trivial
+  | .op o :: cs, s => by
+    unfold runCmds FailedOpsAreIdentity
+    exact ⟨failed_step_is_identity s o, failed_ops_of_history_with_setup_are_identity cs _⟩
+  | .installNsProvider ns :: cs, s => by
+    unfold runCmds FailedOpsAreIdentity
+    exact failed_ops_of_history_with_setup_are_identity cs _
+  | .installUserProvider u :: cs, s => by
+    unfold runCmds FailedOpsAreIdentity
+    exact failed_ops_of_history_with_setup_are_identity cs _
 
 /-! ### what the fixes repair: negation witnesses for the original code, and the partial statements that held -/
 
@@ -481,6 +704,16 @@ theorem compile_without_restore_not_atomic_syntax :
     productions leaves them in the repository as well when nothing is restored -/
 theorem compile_without_restore_not_atomic_oserror :
     failsChanged (compileMofNoRestore wNs [.qual wQual, .cls wClassOk, .missingInclude]) wS0 = true := by decide
+
+def wNsB : Name := "root/b".toList
+def wS0b : State := { nss := [{ name := wNs }, { name := wNsB }] }
+def wClassOk2 : ClassDef := { name := "New3".toList, super := none, quals := [], props := [] }
+
+/-- with `#pragma namespace` a failing compile without the restore leaves objects behind in SEVERAL namespaces -/
+theorem compile_items_without_restore_not_atomic_two_namespaces :
+    failsChanged (compileMofItemsNoRestore wNs
+      [.prod (.cls wClassOk), .pragmaNamespace wNsB, .include [.prod (.cls wClassOk2)], .prod (.cls wClassBad)]) wS0b
+      = true := by decide +kernel
 
 /-- what DID hold for the original fold: a batch whose FIRST element is the rejected one changes nothing
     (this is all the existing tests looked at) -/
@@ -560,6 +793,43 @@ theorem multiNs_namespaces_distinct (ps : List PropV) (target : Name) (others : 
     (h : multiNs ps target = .ok others) : DistinctLower (others ++ [target]) :=
   multiNs_distinct ps target others h
 
+/-! the CIM_Namespace provider adds the namespace before the instance is validated: without the compensation of
+    the fix a request with a missing key property raises CIM_ERR_INVALID_PARAMETER and the namespace stays -/
+
+def wInterop : Name := "interop".toList
+def wKeyProp (n : String) : PropRec :=
+  { d := { name := n.toList, ty := "string".toList, isArr := false, ref := none, quals := [wKeyQ] },
+    origin := nsClassName, propagated := false }
+def wNsClass : ClassRec :=
+  { name := nsClassName, super := none, quals := [],
+    props := [wKeyProp "Name", wKeyProp "CreationClassName", wKeyProp "SystemName"] }
+def wS2 : State := { nss := [{ name := wInterop, classes := [wNsClass] }], nsProv := [wInterop] }
+def wStr (n v : String) : PropV := ⟨n.toList, "string".toList, false, .sc (.str v.toList)⟩
+def wNsInstBad : Inst := { cls := nsClassName, props := [wStr "Name" "root/new", wStr "CreationClassName" "CIM_Namespace"] }
+def wNsInstOk : Inst := { wNsInstBad with props := wNsInstBad.props ++ [wStr "SystemName" "sys"] }
+
+theorem nsProvider_add_before_validate_not_atomic :
+    failsChanged (nsProvPrepare wInterop "root/new".toList true >>= fun _ => createProvider wInterop wNsClass wNsInstBad)
+      wS2 = true := by decide +kernel
+
+/-! DeleteClass deletes the instances one by one through the provider dispatcher: when a user-defined provider
+    refuses the second instance, the original loop (no snapshot/restore) has already deleted the first -/
+
+def wPlain : ClassRec :=
+  { name := "P".toList, super := none, quals := [],
+    props := [{ d := { name := "k".toList, ty := "string".toList, isArr := false, ref := none, quals := [wKeyQ] },
+                origin := "P".toList, propagated := false }] }
+def wPInst (v : String) : InstRec :=
+  mkInstRec wNs "P".toList [("k".toList, .sc (.str v.toList))] "P".toList [wStr "k" v]
+def wRefuser : UserProv :=
+  { ns := wNs, cls := "P".toList, trigger := "k".toList, rejCreate := [], rejModify := [],
+    rejDelete := ["keep".toList], exc := .valueError }
+def wS3 : State :=
+  { nss := [{ name := wNs, classes := [wPlain], insts := [wPInst "a", wPInst "keep"] }], userProvs := [wRefuser] }
+
+theorem deleteClass_without_restore_not_atomic :
+    failsChanged (deleteClassNoRestore wNs "P".toList) wS3 = true := by decide +kernel
+
 /-! ### non-vacuity: operations do fail (with the documented status) and do change the repository when they succeed -/
 
 example : (step wS0 (.createClass wNs wClassBad)).2 = some (.cimError 10) := by decide
@@ -572,6 +842,25 @@ example : (step wS0 (.compileMof wNs [.qual wQual, .cls wClassOk, .missingInclud
 example : (step wS1 (.createInstance wNs wInst)).2 = none := by decide +kernel
 example : (step wS0 (.removeNamespace wNs)).2 = none := by decide
 example : (step wS1 (.removeNamespace wNs)).2 = some (.cimError 20) := by decide
+
+example : step wS0b (.compileMofItems wNs
+    [.prod (.cls wClassOk), .pragmaNamespace wNsB, .include [.prod (.cls wClassOk2)], .prod (.cls wClassBad)])
+    = (wS0b, some .mofDependencyError) := by decide +kernel
+example : (step wS0b (.compileMofItems wNs [.pragmaNamespace "root/zz".toList, .prod (.cls wClassOk)])).2
+    = some .modelError := by decide +kernel
+example : ((step wS0b (.compileMofItems wNs
+    [.include [.pragmaNamespace wNsB], .prod (.cls wClassOk)])).1.nss.map (fun r => r.classes.length)) = [0, 1] := by
+  decide +kernel
+-- a refusing user-defined provider: DeleteClass raises what the provider raised and nothing is deleted
+example : step wS3 (.deleteClass wNs "P".toList) = (wS3, some .valueError) := by decide +kernel
+example : (step { wS3 with userProvs := [] } (.deleteClass wNs "P".toList)).2 = none := by decide +kernel
+-- the namespace provider: a rejected CreateInstance leaves no namespace behind; an accepted one adds namespace and instance
+example : step wS2 (.createInstance wInterop wNsInstBad) = (wS2, some (.cimError 4)) := by decide +kernel
+example : (step wS2 (.createInstance wInterop wNsInstOk)).2 = none ∧
+    ((step wS2 (.createInstance wInterop wNsInstOk)).1.nss.map (·.name)) = [wInterop, "root/new".toList] := by
+  decide +kernel
+-- ModifyInstance with a PropertyList naming a key property that the modified instance lacks is rejected, unchanged
+example : (step wS1 (.createInstance wNs wInst)).2 = none := by decide +kernel
 
 /-! ### the source skeletons (Generated/Atomic.lean, re-extracted from the repo on every run) -/
 
